@@ -237,7 +237,124 @@ LtMustReject(ctx, lt) == \/ ctx \in {"comment", "comment2", "regex", "regexcls",
 LtMustBeString(ctx, lt) == ctx = "strcont" \/ (ctx \in {"string", "dstring"} /\ lt \in {"ls", "ps"})
 LtCases == {[kind |-> "lt", name |-> cx.n, src |-> cx.pre, ds |-> <<>>, n |-> 0, digit |-> lt, embed |-> cx.post] : cx \in LtContexts, lt \in LineTerms}
 
-FamCases == LongCases \cup EscCases \cup StmtCases \cup JumpCases \cup LtCases
+\* (f) nesting shape x depth, inside the documented limit (the property quantifies over every source nested no deeper than 30).
+\*     A shape is an opening and a closing text around a hole; `so` is the sort of the shape itself, `si` the sort of its hole
+\*     ("E" expression, "S" statement).  Families: functions (expression, named, arrow, arrow with a block, method, getter,
+\*     constructor, callback, declaration, capturing a variable of the outermost function), brackets and operators, statements.
+\*     A mix rotates several shapes over the levels (level i takes shape i mod length).  Judged: outcome typing, and the work of
+\*     the front end (host-level calls made by lexer / parser / compiler, counted by the driver) is at most proportional to
+\*     (length of the text) x (nesting depth): "the front end never hangs" for inputs inside the limit.
+NestShapes == {
+  [n |-> "fexpr",    so |-> "E", si |-> "E", open |-> "(function () { return ", close |-> " })()"],
+  [n |-> "fnamed",   so |-> "E", si |-> "E", open |-> "(function g(p) { return ", close |-> " })(1)"],
+  [n |-> "arrow",    so |-> "E", si |-> "E", open |-> "(() => ", close |-> ")()"],
+  [n |-> "arrowblk", so |-> "E", si |-> "E", open |-> "((p) => { return ", close |-> " })(1)"],
+  [n |-> "method",   so |-> "E", si |-> "E", open |-> "({ m: function () { return ", close |-> " } }).m()"],
+  [n |-> "getter",   so |-> "E", si |-> "E", open |-> "({ get g() { return ", close |-> " } }).g"],
+  [n |-> "ctor",     so |-> "E", si |-> "E", open |-> "(new (function () { this.v = ", close |-> "; })()).v"],
+  [n |-> "callback", so |-> "E", si |-> "E", open |-> "[0].map(function (e) { return ", close |-> " })[0]"],
+  [n |-> "fcapture", so |-> "E", si |-> "E", open |-> "(function (a) { return q + a + ", close |-> " })(1)"],
+  [n |-> "fbody",    so |-> "E", si |-> "S", open |-> "(function () { ", close |-> " })()"],
+  [n |-> "arrowbody", so |-> "E", si |-> "S", open |-> "(() => { ", close |-> " })()"],
+  [n |-> "fdecl",    so |-> "S", si |-> "S", open |-> "function f() { ", close |-> " } f();"],
+  [n |-> "fdeclvar", so |-> "S", si |-> "S", open |-> "var h = function () { var w = q; ", close |-> " return w; }; h();"],
+  [n |-> "estmt",    so |-> "S", si |-> "E", open |-> "q = ", close |-> ";"],
+  [n |-> "paren",    so |-> "E", si |-> "E", open |-> "(", close |-> ")"],
+  [n |-> "array",    so |-> "E", si |-> "E", open |-> "[", close |-> "]"],
+  [n |-> "object",   so |-> "E", si |-> "E", open |-> "({ a: ", close |-> " })"],
+  [n |-> "call",     so |-> "E", si |-> "E", open |-> "Math.abs(", close |-> ")"],
+  [n |-> "index",    so |-> "E", si |-> "E", open |-> "[0, 1][", close |-> "]"],
+  [n |-> "cond",     so |-> "E", si |-> "E", open |-> "(q ? ", close |-> " : 0)"],
+  [n |-> "neg",      so |-> "E", si |-> "E", open |-> "-(", close |-> ")"],
+  [n |-> "plus",     so |-> "E", si |-> "E", open |-> "(1 + ", close |-> ")"],
+  [n |-> "assign",   so |-> "E", si |-> "E", open |-> "(q = ", close |-> ")"],
+  [n |-> "comma",    so |-> "E", si |-> "E", open |-> "(0, ", close |-> ")"],
+  [n |-> "typeof",   so |-> "E", si |-> "E", open |-> "typeof (", close |-> ")"],
+  [n |-> "newobj",   so |-> "E", si |-> "E", open |-> "new Object(", close |-> ")"],
+  [n |-> "block",    so |-> "S", si |-> "S", open |-> "{ ", close |-> " }"],
+  [n |-> "if",       so |-> "S", si |-> "S", open |-> "if (q) { ", close |-> " }"],
+  [n |-> "ifelse",   so |-> "S", si |-> "S", open |-> "if (!q) {} else { ", close |-> " }"],
+  [n |-> "while",    so |-> "S", si |-> "S", open |-> "while (q) { ", close |-> " break; }"],
+  [n |-> "dowhile",  so |-> "S", si |-> "S", open |-> "do { ", close |-> " } while (!q);"],
+  [n |-> "for",      so |-> "S", si |-> "S", open |-> "for (var i = 0; i < 1; i++) { ", close |-> " }"],
+  [n |-> "forin",    so |-> "S", si |-> "S", open |-> "for (var k in {a: 1}) { ", close |-> " }"],
+  [n |-> "forof",    so |-> "S", si |-> "S", open |-> "for (var v of [1]) { ", close |-> " }"],
+  [n |-> "try",      so |-> "S", si |-> "S", open |-> "try { ", close |-> " } catch (e) {}"],
+  [n |-> "catch",    so |-> "S", si |-> "S", open |-> "try { throw 1; } catch (e) { ", close |-> " }"],
+  [n |-> "finally",  so |-> "S", si |-> "S", open |-> "try {} finally { ", close |-> " }"],
+  [n |-> "switch",   so |-> "S", si |-> "S", open |-> "switch (q) { case 1: ", close |-> " }"]}
+NestShape(nm) == CHOOSE sh \in NestShapes : sh.n = nm
+NestMixes == {[n |-> "mixfn",    of |-> <<"fexpr", "arrow", "method", "getter", "callback", "fnamed", "arrowblk", "ctor">>],
+              [n |-> "mixfnstmt", of |-> <<"fbody", "fdecl", "estmt", "arrowbody", "fdeclvar", "estmt">>],
+              [n |-> "mixexpr",  of |-> <<"paren", "array", "object", "call", "index", "cond", "neg", "plus", "assign", "comma", "typeof", "newobj">>],
+              [n |-> "mixstmt",  of |-> <<"block", "if", "ifelse", "while", "dowhile", "for", "forin", "forof", "try", "catch", "finally", "switch">>],
+              [n |-> "mixall",   of |-> <<"fbody", "if", "estmt", "array", "arrow", "object", "fcapture", "fbody", "try", "for", "fdecl", "estmt", "paren", "getter">>],
+              [n |-> "mixcapture", of |-> <<"fcapture", "fbody", "estmt", "arrow", "fbody", "fdeclvar", "estmt", "callback">>]}
+NestDepths == IF Quick THEN {1, 2, 3, 5, 8, 12, 16, 20, 24, 28, 30} ELSE 1..30
+NestLimit == 30                                        \* the documented limit the property names
+\* every nest program runs inside a function that declares q (so that q is a captured local at every level, not a global)
+NestPre(srt) == IF srt = "E" THEN "(function () { var q = 1; return " ELSE "(function () { var q = 1; "
+NestPost(srt) == IF srt = "E" THEN "; })()" ELSE " return q; })()"
+NestCore(srt) == IF srt = "E" THEN "q" ELSE "q = q + 1;"
+RECURSIVE NestText(_, _, _)
+NestText(shs, lvl, dd) == IF lvl > dd THEN NestCore(shs[((lvl - 2) % Len(shs)) + 1].si)
+                          ELSE LET sh == shs[((lvl - 1) % Len(shs)) + 1] IN sh.open \o NestText(shs, lvl + 1, dd) \o sh.close
+NestProgram(shs, dd) == NestPre(shs[1].so) \o NestText(shs, 1, dd) \o NestPost(shs[1].so)
+\* a rotation is well sorted when the hole of every shape takes the sort of the next one (cyclically)
+WellSorted(shs) == \A li \in 1..Len(shs) : shs[li].si = shs[(li % Len(shs)) + 1].so
+NestLists == {[n |-> sh.n, of |-> <<sh>>] : sh \in {sx \in NestShapes : sx.so = sx.si}}
+             \cup {[n |-> mx.n, of |-> [li \in 1..Len(mx.of) |-> NestShape(mx.of[li])]] : mx \in NestMixes}
+\* the bound on the work of the front end: host-level calls <= WorkFactor x (characters + 16) x (depth + 2).  (On the tree as checked
+\* the largest quotient is 26 for every shape but `finally`, whose body the compiler emits twice per level: 145 at depth 12, where the
+\* engine's own program-size limit ends the doubling with a JSError.)
+WorkFactor == 200
+WorkBound(slen, dd) == WorkFactor * (slen + 16) * (dd + 2)
+\* ds = <<the count at which the driver stops counting (bound + 1), length of the text>>
+NestCase(nl, dd) == LET tx == NestProgram(nl.of, dd) IN
+                    [kind |-> "nest", name |-> nl.n, src |-> tx, ds |-> <<WorkBound(Len(tx), dd) + 1, Len(tx)>>, n |-> dd, digit |-> "", embed |-> ""]
+NestCases == {NestCase(nl, dd) : nl \in NestLists, dd \in NestDepths}
+
+\* (g) flat source that nests the syntax tree: a unit repeated n times between a prefix and a suffix (left-deep operator chains,
+\*     call / member / index chains, assignment and conditional chains, prefix operators, if / else-if / label chains without a
+\*     bracket) and wide constructs (statements, elements, properties, arguments, parameters, cases, declarations).  No bracket is
+\*     nested, so the documented exemption (parser recursion on bracket nesting) does not apply: outcome typing.  The text is
+\*     src \o digit^n \o embed, rendered by the driver.
+ChainKinds == {
+  [n |-> "plus", pre |-> "1", unit |-> " + 1", post |-> ""],                   [n |-> "minus", pre |-> "1", unit |-> "-1", post |-> ""],
+  [n |-> "mul", pre |-> "1", unit |-> "*1", post |-> ""],                       [n |-> "pow", pre |-> "1", unit |-> "**1", post |-> ""],
+  [n |-> "and", pre |-> "1", unit |-> "&&1", post |-> ""],                      [n |-> "or", pre |-> "0", unit |-> "||0", post |-> ""],
+  [n |-> "bitor", pre |-> "1", unit |-> "|1", post |-> ""],                     [n |-> "shift", pre |-> "1", unit |-> "<<1", post |-> ""],
+  [n |-> "less", pre |-> "1", unit |-> "<1", post |-> ""],                      [n |-> "equal", pre |-> "1", unit |-> "===1", post |-> ""],
+  [n |-> "in", pre |-> "1", unit |-> " in {}", post |-> ""],                    [n |-> "instanceof", pre |-> "1", unit |-> " instanceof Object", post |-> ""],
+  [n |-> "comma", pre |-> "1", unit |-> ",1", post |-> ""],                     [n |-> "strcat", pre |-> "''", unit |-> "+'a'", post |-> ""],
+  [n |-> "assign", pre |-> "var x; x", unit |-> "=x", post |-> "=1"],           [n |-> "opassign", pre |-> "var x = 1; x", unit |-> "+=x", post |-> ""],
+  [n |-> "cond", pre |-> "1", unit |-> "?1:1", post |-> ""],                    [n |-> "condright", pre |-> "", unit |-> "1?1:", post |-> "1"],
+  [n |-> "call", pre |-> "var f = function () { return f }; f", unit |-> "()", post |-> ""],
+  [n |-> "member", pre |-> "var a = {}; a.b = a; a", unit |-> ".b", post |-> ""],
+  [n |-> "index", pre |-> "var a = []; a[0] = a; a", unit |-> "[0]", post |-> ""],
+  [n |-> "methodcall", pre |-> "'a'", unit |-> ".trim()", post |-> ""],
+  [n |-> "not", pre |-> "", unit |-> "!", post |-> "1"],                        [n |-> "neg", pre |-> "", unit |-> "- ", post |-> "1"],
+  [n |-> "typeof", pre |-> "", unit |-> "typeof ", post |-> "1"],               [n |-> "void", pre |-> "", unit |-> "void ", post |-> "1"],
+  [n |-> "delete", pre |-> "", unit |-> "delete ", post |-> "a"],               [n |-> "new", pre |-> "var F = function () {}; ", unit |-> "new ", post |-> "F"],
+  [n |-> "postfix", pre |-> "var x = 1; x", unit |-> "++;x", post |-> ""],
+  [n |-> "arrow", pre |-> "var f = ", unit |-> "x=>", post |-> "1"],
+  [n |-> "if", pre |-> "", unit |-> "if(1)", post |-> "1"],                     [n |-> "elseif", pre |-> "", unit |-> "if(0)1;else ", post |-> "1"],
+  [n |-> "while", pre |-> "", unit |-> "while(0)", post |-> "1"],               [n |-> "label", pre |-> "", unit |-> "a:", post |-> "1"],
+  [n |-> "forhead", pre |-> "", unit |-> "for(;0;)", post |-> "1"],             [n |-> "with", pre |-> "", unit |-> "with({})", post |-> "1"],
+  [n |-> "stmts", pre |-> "", unit |-> "1;", post |-> ""],                      [n |-> "empties", pre |-> "", unit |-> ";", post |-> ""],
+  [n |-> "lines", pre |-> "", unit |-> "\n", post |-> "1"],                     [n |-> "comments", pre |-> "", unit |-> "/**/", post |-> "1"],
+  [n |-> "elems", pre |-> "[", unit |-> "1,", post |-> "]"],                    [n |-> "holes", pre |-> "[", unit |-> ",", post |-> "]"],
+  [n |-> "props", pre |-> "({", unit |-> "a:1,", post |-> "})"],                [n |-> "getters", pre |-> "({", unit |-> "get a(){return 1},", post |-> "})"],
+  [n |-> "args", pre |-> "Math.max(", unit |-> "1,", post |-> "1)"],            [n |-> "params", pre |-> "(function(", unit |-> "a,", post |-> "a){})"],
+  [n |-> "cases", pre |-> "switch(1){", unit |-> "case 1:", post |-> "}"],      [n |-> "decls", pre |-> "var a=1", unit |-> ",a=1", post |-> ""],
+  [n |-> "functions", pre |-> "", unit |-> "function f(){} ", post |-> ""],     [n |-> "trycatch", pre |-> "", unit |-> "try{}catch(e){} ", post |-> ""],
+  [n |-> "regexes", pre |-> "", unit |-> "/a/;", post |-> ""],                  [n |-> "strings", pre |-> "", unit |-> "'a';", post |-> ""],
+  [n |-> "escapes", pre |-> "'", unit |-> "\\\\", post |-> "'"],               [n |-> "parens", pre |-> "", unit |-> "(1);", post |-> ""]}
+ChainLens == IF Quick THEN {100, 1000, 5000} ELSE {30, 100, 300, 600, 900, 1000, 1100, 1500, 3000, 5000, 10000}
+ChainCases == {[kind |-> "chain", name |-> ck.n, src |-> ck.pre, ds |-> <<>>, n |-> nn, digit |-> ck.unit, embed |-> ck.post] :
+                  ck \in ChainKinds, nn \in ChainLens}
+
+FamCases == LongCases \cup EscCases \cup StmtCases \cup JumpCases \cup LtCases \cup NestCases \cup ChainCases
 FamInit == ph = "fstart" /\ pf = "" /\ inp = <<>> /\ rec_i = 0
 FamNext == ph = "fstart" /\ ph' = "fam" /\ (\E cs \in FamCases : inp' = cs) /\ UNCHANGED <<pf, rec_i>>
 FamEmit == ph # "fam" \/ PrintT(ToJson(inp))
@@ -251,10 +368,22 @@ FamLaw == /\ ph = "fam" /\ inp.kind = "esc" =>
                /\ inp.src # ""
           /\ ph = "fam" /\ inp.kind = "stmt" => inp.src # ""
           /\ ph = "fam" /\ inp.kind = "lt" => ~(LtMustReject(inp.name, inp.digit) /\ LtMustBeString(inp.name, inp.digit))
+          /\ ph = "fam" /\ inp.kind = "nest" => inp.n \in 1..NestLimit /\ inp.ds[2] = Len(inp.src) /\ inp.ds[1] > WorkBound(inp.ds[2], inp.n)
+          /\ ph = "fam" /\ inp.kind = "chain" => inp.n >= 1 /\ inp.digit # ""
           /\ ph = "fstart" => /\ Cardinality(LongCases) = Cardinality(LongForms) * Cardinality(LongLens) * 10
                               /\ Cardinality(EscCases) = Cardinality(EscCarriers) * Cardinality(EscDigits)
                               /\ \E ec \in EscCases : EscOk(ec.ds) /\ EscVal(EscStrip(ec.ds)) = 1114111
                               /\ \E ec \in EscCases : ~EscOk(ec.ds) /\ EscStrip(ec.ds) = <<1, 1, 0, 0, 0, 0>>
+                              \* nesting: every rotation is well sorted, every shape occurs (alone or in a rotation), the limit itself is a depth,
+                              \* a shallow and a deep level are present for every list, and the bound fits TLC's integers
+                              /\ \A nl \in NestLists : WellSorted(nl.of) /\ nl.of[1].so = nl.of[Len(nl.of)].si
+                              /\ \A sh \in NestShapes : \E nl \in NestLists : \E li \in 1..Len(nl.of) : nl.of[li] = sh
+                              /\ \A mx \in NestMixes : \A li \in 1..Len(mx.of) : \E sh \in NestShapes : sh.n = mx.of[li]
+                              /\ {1, NestLimit} \subseteq NestDepths /\ NestDepths \subseteq 1..NestLimit
+                              /\ Cardinality(NestCases) = Cardinality(NestLists) * Cardinality(NestDepths)
+                              /\ WorkBound(4000, NestLimit) < 2147483647 \div 4
+                              /\ Cardinality(ChainCases) = Cardinality(ChainKinds) * Cardinality(ChainLens)
+                              /\ \E nn \in ChainLens : nn >= 1000        \* beyond the host's default recursion limit
 
 \* ---------------- token sequences over the expression vocabulary (S->C, acceptor) ---------------------------
 \* Bound <= 4: within it JsGrammar!ParseStmtsD covers every ECMAScript program over this vocabulary (arrow functions
@@ -406,6 +535,16 @@ JudgeEsc(r) ==
   ELSE Mis("", "a code point escape beyond 0x10FFFF (or without digits) accepted in a string literal")
 \* statement head x misplaced operand, misplaced jumps: outcome typing, position sanity of a front-end error
 JudgeStmt(r) == Typing(r, r.lens)
+\* nesting shape x depth (fname = shape or rotation, ds = <<front-end work counted by the driver, length of the text, depth>>):
+\* outcome typing (a count stopped at the bound arrives as the outcome "hang"), and the work stays within the bound
+JudgeNest(r) ==
+  LET ty == Typing(r, r.lens) IN
+  IF ty.v # "pass" THEN ty
+  ELSE IF Len(r.ds) # 3 \/ r.ds[3] \notin 1..NestLimit THEN [v |-> "unsupported", dev |-> "", why |-> "nest record without work / length / depth"]
+  ELSE IF r.ds[1] > WorkBound(r.ds[2], r.ds[3]) THEN Mis("", "front-end work beyond the bound (length x depth): the front end hangs on nested source")
+  ELSE Pass
+\* flat source that nests the syntax tree: outcome typing
+JudgeChain(r) == Typing(r, r.lens)
 
 \* line terminator x context (fname = context, args = <<terminator>>).  As-is rule Dev_LineTerminatorLFOnly: the lexer knows LF
 \* only (CR, LS, PS do not end a comment, a string or a regular expression literal, and do not advance the line).
@@ -430,6 +569,8 @@ Verdict(r) ==
     [] r.kind = "long" -> JudgeLong(r)
     [] r.kind = "esc" -> JudgeEsc(r)
     [] r.kind = "stmt" -> JudgeStmt(r)
+    [] r.kind = "nest" -> JudgeNest(r)
+    [] r.kind = "chain" -> JudgeChain(r)
     [] r.kind = "src" -> JudgeSrc(r)
     [] r.kind = "call" -> JudgeCall(r)
     [] r.kind = "toks" -> JudgeToks(r)
